@@ -128,14 +128,20 @@ pub fn cff_table(charstring: &[u8]) -> Vec<u8> {
 
 /// The CFF table with explicit global / local subroutine lists (subr i is called with operand i − 107).
 pub fn cff_table_with(charstring: &[u8], gsubr_list: &[Vec<u8>], lsubr_list: &[Vec<u8>]) -> Vec<u8> {
+    cff_table_full(charstring, gsubr_list, lsubr_list, &[])
+}
+
+/// … and with `private_extra` DICT bytes placed before the Subrs operator of the Private DICT.
+pub fn cff_table_full(charstring: &[u8], gsubr_list: &[Vec<u8>], lsubr_list: &[Vec<u8>], private_extra: &[u8]) -> Vec<u8> {
     let gsubrs = index(gsubr_list);
     let lsubrs = index(lsubr_list);
     let header = vec![1u8, 0, 4, 4];
     let name = index(&[b"V".to_vec()]);
     let strings = index(&[]);
     // Private DICT: Subrs (op 19) offset relative to the Private DICT start = its own length
-    let private_len = 5 + 1;
-    let mut private = dict_int(private_len as i32);
+    let private_len = private_extra.len() + 5 + 1;
+    let mut private = private_extra.to_vec();
+    private.extend(dict_int(private_len as i32));
     private.push(19);
     // Top DICT: CharStrings (17), Private size+offset (18): 5+1 + 5+5+1 = 17 bytes
     let top_len = 17usize;
